@@ -10,6 +10,7 @@ import (
 	"bytes"
 	"encoding/json"
 	"fmt"
+	"github.com/plgd-dev/go-coap/v3/net/blockwise"
 	"os"
 	"sort"
 	"sync"
@@ -59,6 +60,9 @@ type Stim struct {
 	Reqs   []Req `json:"reqs"`
 	Steps  []Act `json:"steps"`
 	Hijack bool  `json:"hijack"` // the handler takes every request over (Hijack) and gives it back to the pool before it returns
+	// Big: the connection has the block-wise layer (SZX 16) and the handler's body is 40 bytes: the reply is the first block of a
+	// block-wise response - remembered like any reply
+	Big bool `json:"big"`
 }
 
 type LogEv struct {
@@ -115,6 +119,11 @@ func runOne(st Stim) Trace {
 	var u *conns.UDP
 	u = conns.NewUDP(func(cfg *udpclient.Config) {
 		cfg.ReceivedMessageQueueSize = 16
+		if st.Big {
+			cfg.BlockwiseEnable = true
+			cfg.BlockwiseSZX = blockwise.SZX16
+			cfg.BlockwiseTransferTimeout = 3 * time.Second
+		}
 		cfg.ProcessReceivedMessage = func(req *pool.Message, cc *udpclient.Conn, handler config.HandlerFunc[*udpclient.Conn]) {
 			gid := hooks.GID()
 			tok := req.Token()
@@ -141,7 +150,11 @@ func runOne(st Stim) Trace {
 			w.mu.Unlock()
 			b := <-ch
 			if b == "piggy" {
-				_ = rw.SetResponse(codes.Content, message.TextPlain, bytes.NewReader([]byte(fmt.Sprintf("resp-q%d-run%d", info.q, k))),
+				body := []byte(fmt.Sprintf("resp-q%d-run%d", info.q, k))
+				if st.Big {
+					body = append(body, bytes.Repeat([]byte{'.'}, 40-len(body))...)
+				}
+				_ = rw.SetResponse(codes.Content, message.TextPlain, bytes.NewReader(body),
 					message.Option{ID: message.MaxAge, Value: []byte{byte(info.q)}})
 			}
 			if st.Hijack { // what the application does with the message it was handed must not matter for de-duplication
